@@ -412,6 +412,10 @@ PostHoc ==
   /\ pc = "posthoc"
   /\ IF di > Len(hist.posthoc)
        THEN pc' = "done" /\ UNCHANGED <<lst, fo, cl, di, res>>
+       ELSE IF hist.posthoc[di].d.d \in {"require_partial", "ensure_partial"}
+         THEN \* icontract.require(..)(functools.partial(K.name)): the partial object gets a checker of its own; nothing
+              \* that exists is touched
+              /\ di' = di + 1 /\ pc' = "posthoc" /\ UNCHANGED <<lst, fo, cl, res>>
        ELSE IF hist.posthoc[di].d.d = "invariant"
          THEN \* a class decorated with an invariant after later classes (its subclasses) have been created
               LET r == ApplyInvDeco(hist.posthoc[di].k, hist.posthoc[di].d.c)
